@@ -51,7 +51,12 @@ TRUSTED = ['hand-written model coq/Model/Transform.v tied to biom/table.py:3063-
            'the interpreted source instead (tools/decython.py); on the unchanged tree both are run on every case and must agree',
            'extraction (ExtrOcamlBasic only) + ocaml/driver_tail.ml, cross-checked against vm_compute on a sample']
 from . import regen as _regen
-regenerate = _regen.hook(TRUSTED, ['transform'])   # py2v: regenerate coq/Gen/* from the source first
+_regen_kernel = _regen.hook(TRUSTED, ['transform'])   # py2v: regenerate coq/Gen/TransformGen.v (the kernel) from the source first
+from . import regen_wrap as _regen_wrap
+# py2v_wrap: regenerate coq/Gen/TransformWrapGen.v (Table.transform / pa / rankdata, the python-level wrappers) as well
+regenerate = _regen_wrap.combine(TRUSTED, _regen_kernel,
+                                _regen_wrap.hook(TRUSTED, ['transform'], 'coq/Model/Transform.v (transform, pa, rankdata)',
+                                                 'coq/Proofs/GenBridgeWrapProofs.v'))
 ASSUMPTIONS = ['functions are deterministic and return finite values (no NaN), -0.0 counts as zero as in scipy',
                'norm: non-negative values, each vector holding small integer multiples of one power of two (1/64 for ordinary vectors; 2^-53 .. 2^-1074 for the tiny ones), so every sum is exact in binary64 and positive when something is stored',
                'an in-place transform whose function returns a wrong-length array is outside the model (the receiver may be half transformed)']
